@@ -49,6 +49,17 @@ Proof. exact fuel_enough. Qed.
 (* the package name is an identifier whatever the profile is called *)
 Theorem C07_package_name : forall s, all_ident (package_name s) = true.
 Proof. exact package_name_is_identifier. Qed.
+(* the two literals whose first versions did not compile (repaired defects): every regular expression - with backticks,
+   quotes, backslashes, newlines - is written as a string literal the engine reads back as exactly that text; every value
+   list, the empty one included, is written as a SET literal (`{ }` would be the empty object) *)
+Theorem C07_pattern_literal : forall p rest,
+  scan_string_term (S (String.length p)) (pattern_literal p ++ rest) = Some (p, rest).
+Proof. exact pattern_literal_verbatim. Qed.
+Theorem C07_value_list_is_a_set : forall l, classify_collection (string_set_literal l) = KSet.
+Proof. exact string_set_is_a_set. Qed.
+Theorem C07_refuted_before_fixes :
+  scan_raw ("x`y" ++ String "`" ",v)") = Some ("x", "y`,v)") /\ classify_collection "{ }" = KObject.
+Proof. split; [exact pattern_refuted_before_fix|exact (proj1 empty_braces_are_an_object)]. Qed.
 (* the helper variables of the snippets are never captured by a quantified variable or a collection *)
 Theorem C07_helpers_not_captured : forall i, ~ In (var_name i) helper_vars /\ ~ In (plural (var_name i)) helper_vars.
 Proof. exact helpers_not_quantified. Qed.
@@ -76,6 +87,9 @@ Print Assumptions C07_numbered_names_distinct.
 Print Assumptions C07_declarations_distinct.
 Print Assumptions C07_generator_terminates.
 Print Assumptions C07_package_name.
+Print Assumptions C07_pattern_literal.
+Print Assumptions C07_value_list_is_a_set.
+Print Assumptions C07_refuted_before_fixes.
 Print Assumptions C07_refuted_with_a.
 Print Assumptions C07_helpers_not_captured.
 Print Assumptions C07_refuted_with_n.
